@@ -5,7 +5,7 @@
    the token tree it was written from, for each renderer's token sets. *)
 From Coq Require Import ZArith List Bool Lia.
 From Mistletoe Require Import Base.Sx Base.PyStr Base.PyText Gen.GenTables Gen.GenConfig Model.Tree Model.CoreTokens Model.Block Model.Build
-     Model.Parser Proofs.PlainProse Proofs.Prose Proofs.ListLaw Proofs.FenceLaw Spec.Fragment Proofs.FragmentP.
+     Model.Parser Proofs.PlainProse Proofs.Prose Proofs.ProseLines Proofs.ListLaw Proofs.FenceLaw Spec.Fragment Proofs.FragmentP.
 Import ListNotations.
 Local Open Scope Z_scope.
 
@@ -38,10 +38,11 @@ Qed.
 Lemma deep_line : forall f t, (depth t <= f)%nat -> wf_b t = true -> exists l, In l (spell t) /\ (S (depth t) <= weight l)%nat.
 Proof.
   induction f as [|f IH]; intros t Hd Hw.
-  - destruct t as [c body|ch n content|ts|mk pad ts]; [| |cbn [depth] in Hd; lia|cbn [depth] in Hd; lia].
+  - destruct t as [c body more|ch n content|ts|mk pad ts|lv hc hb]; [| |cbn [depth] in Hd; lia|cbn [depth] in Hd; lia|].
     + exists (SLine 0 c body). split; [left; reflexivity|cbn [depth weight]; lia].
     + exists (SLine 0 ch (repeat ch (n - 1))). split; [left; reflexivity|cbn [depth weight]; lia].
-  - destruct t as [c body|ch n content|ts|mk pad ts].
+    + eexists. split; [left; reflexivity|cbn [depth weight]; lia].
+  - destruct t as [c body more|ch n content|ts|mk pad ts|lv hc hb].
     + exists (SLine 0 c body). split; [left; reflexivity|cbn [depth weight]; lia].
     + exists (SLine 0 ch (repeat ch (n - 1))). split; [left; reflexivity|cbn [depth weight]; lia].
     + cbn [wf_b] in Hw. repeat rewrite andb_true_iff in Hw. destruct Hw as [[Hs Hall] Hg].
@@ -67,6 +68,7 @@ Proof.
       * eexists. split; [left; reflexivity|]. cbn [weight] in Wl |- *. rewrite !app_length, repeat_length. cbn [length]. lia.
       * exists (embed_s (length (m0 :: mr) + pad) l). split; [right; apply in_map; exact Hj|].
         destruct l as [|k c body]; cbn [weight] in Wl; [lia|]. cbn [embed_s weight length]. lia.
+    + eexists. split; [left; reflexivity|cbn [depth weight]; lia].
 Qed.
 
 Lemma longest_ge (lines : list str) l : In l lines -> forall a, (length l <= fold_left (fun m x => Nat.max m (length x)) lines a)%nat.
@@ -88,7 +90,7 @@ Qed.
 
 (* Document(lines) on the spelled text of a tree *)
 Theorem fragment_document cfg t :
-  fragment_config (cfg_block cfg) = true -> forallb kind_quiet (removelast (cfg_span cfg)) = true -> wf_b t = true ->
+  fragment_config (cfg_block cfg) = true -> prose_spans (cfg_span cfg) = true -> wf_b t = true ->
   fst (fst (parse_lines cfg (text_of (spell t)))) = Document [tok_of false t].
 Proof.
   intros Hc Hq Hw. pose proof (fuel_suffices t Hw) as Hf.
@@ -111,6 +113,6 @@ Proof.
 Qed.
 
 Lemma document_configs :
-  forallb (fun c => fragment_config (cfg_block c) && forallb kind_quiet (removelast (cfg_span c)))
+  forallb (fun c => fragment_config (cfg_block c) && prose_spans (cfg_span c))
           [cfg_html; cfg_html_nohtml; cfg_latex; cfg_mathjax; cfg_default] = true.
 Proof. vm_compute. reflexivity. Qed.
